@@ -129,13 +129,18 @@ def ff_getters(repo, res, ty, rule="FF"):
     # get_subwords / get_commands
     fn = repo.fn("dfa::DFA::get_subwords")
     if fn is not None:
-        txt = "".join(repo.text(fn.file, fn.body).split())
-        ok = "letmutunallocated_id=first_id;" in txt and "or_insert_with" in txt and "for(_,tos)in&self.transitions" in txt
-        res.check(ok, rule, f"{rule}:get_subwords", "within-word ids = first-occurrence order over the transitions, starting at first_id", fn.loc())
+        # an id is allocated only for a within-word automaton not seen before (entry(..).or_insert*), counted from the `first_id`
+        # parameter, over all transitions of the automaton
+        base = next((prm["name"] for prm in fn.params if "usize" in (prm.get("ty") or "")), None)
+        dedup = [c for c in A.walk(fn.body) if c["k"] == "MethodCall" and c["method"] in ("or_insert_with", "or_insert") and c["recv"]["k"] == "MethodCall" and c["recv"]["method"] == "entry"]
+        uses_base = base is not None and any(x["k"] == "Path" and x["path"] == base for x in A.walk(fn.body))
+        whole = any((x["k"] == "Field" and str(x.get("member")) == "transitions") or (x["k"] == "MethodCall" and x["method"] == "iter_transitions") for x in A.walk(fn.body))
+        ok = bool(dedup) and uses_base and whole
+        res.check(ok, rule, f"{rule}:get_subwords", f"within-word ids: allocated once per distinct automaton (entry().or_insert*: {len(dedup)}), counted from `{base}` ({uses_base}), over all transitions ({whole})", fn.loc())
     fn = repo.fn("dfa::DFA::get_commands")
     if fn is not None:
-        ins = list(P.find_calls(fn.body, methods={"insert"}))
-        res.check(len(ins) == 2 and any(True for _ in P.find_calls(fn.body, methods={"lookup"})), rule, f"{rule}:get_commands", "command set = commands of the main symbols, then of every within-word automaton's symbols", fn.loc())
+        ins = list(P.find_calls(fn.body, methods={"insert", "extend"}))
+        res.check(len(ins) >= 2 and any(True for _ in P.find_calls(fn.body, methods={"lookup"})), rule, f"{rule}:get_commands", "command set = commands of the main symbols, then of every within-word automaton's symbols", fn.loc())
     # tables::get_lookup_tables: same id map for match and completion tables
     fn = repo.fn("tables::get_lookup_tables")
     if fn is not None:
